@@ -319,6 +319,8 @@ def judge(spec, result, baselines):
     for i, (op, r) in enumerate(zip(ops, results)):
         if r.get("shared_nodes"):
             viols.append({"kind": "shared-nodes", "op": i, "detail": "%d node objects of the returned AST were already part of an AST returned by an earlier call" % r["shared_nodes"]})
+        if r.get("mutated_later"):
+            viols.append({"kind": "history:ast-mutated-later", "op": i, "detail": "the AST returned by this call was different at the end of the history from what it was when returned: a later call modified it"})
         if r.get("fresh_shared_nodes"):
             viols.append({"kind": "shared-nodes:via-module", "op": i, "detail": "a brand-new instance returned %d node objects that an earlier call had returned" % r["fresh_shared_nodes"]})
         if not compared(r):
